@@ -18,7 +18,7 @@ RULE = ('three kinds of cases. rev: lists of DNA strings (all strings up to a le
         'the Spec tables and also compared with Biopython. non-trivial = some row is not its own reverse '
         'complement / some minus-strand interval of length >= 2 / at least one codon')
 EXHAUSTIVE = {'quick': False, 'thorough': False}
-TIE = 'correspondence (complement tables, lookup, row reversal, np.where choice, TCAG 3-mer hash evaluated in Coq on the same inputs) + Biopython as second oracle for the Spec tables'
+TIE = 'translator+correspondence (Gen/C14.v regenerated from dna.py, translate.py, kmers.py, genes.py, genomic_sequence.py; Bridge/C14.v; complement tables, lookup, row reversal, np.where choice, TCAG 3-mer hash evaluated in Coq on the same inputs; Biopython as second oracle for the Spec tables)'
 ASSUMPTIONS = ['npstructures ragged indexing ([..., ::-1], flat[starts:stops]) is modelled as per-row reversal / slicing and only tied by correspondence',
                'Biopython 1.88 Seq.reverse_complement / Seq.translate (standard table) used as an independent oracle for the Coq Spec tables']
 PARTIAL = ['C14_revcomp_partial: for the code at HEAD ASCII-encoded input must be upper case (C14_revcomp_pinned_refuted: "a" -> NUL)',
